@@ -52,6 +52,10 @@ def _rules():
             lambda R, c, rid: c17.rule_c(R, c, rid),
             lambda R, c, rid: c17.rule_d(R, c, rid),
         ],
+        "lookup": [
+            lambda R, c, rid: shared.lookup_slices(R, c, rid),
+            lambda R, c, rid: preds.rule(R, c, rid, ["item_contains", "slice_contains_id", "blockrange_contains"]),
+        ],
         "flags": [
             lambda R, c, rid: preds.rule(R, c, rid, ["flags_check"]),
             lambda R, c, rid: preds.flag_table(R, c, rid),
@@ -61,23 +65,23 @@ def _rules():
 
 # property -> mechanisms it depends on *in addition to* the clauses its own module already runs
 DEPENDS = {
-    "C01": ["squash", "splice", "partial", "flags", "stash-deletes"],
-    "C02": ["stash-deletes"],
-    "C03": ["splice", "conflict"],
-    "C04": ["splice", "dependency", "stash-deletes"],
+    "C01": ["squash", "splice", "partial", "flags", "stash-deletes", "lookup"],
+    "C02": ["stash-deletes", "lookup"],
+    "C03": ["splice", "conflict", "lookup"],
+    "C04": ["splice", "dependency", "stash-deletes", "lookup"],
     "C05": ["conflict", "squash", "splice", "dependency"],
-    "C06": ["dependency", "delete-set", "slice", "partial"],
+    "C06": ["dependency", "delete-set", "slice", "partial", "lookup"],
     "C07": ["delete-set", "slice", "partial"],
     "C08": ["slice", "delete-set", "partial"],
     "C09": ["slice", "partial"],
-    "C12": ["splice", "squash"],
-    "C13": ["splice", "delete-set"],
-    "C14": ["splice", "liveness"],
+    "C12": ["splice", "squash", "lookup"],
+    "C13": ["splice", "delete-set", "lookup"],
+    "C14": ["splice", "liveness", "lookup"],
     "C15": ["squash", "splice"],
     "C16": ["delete-set"],
     "C17": ["flags"],
     "C18": ["dependency", "stash-deletes", "partial"],
-    "C20": ["dependency", "splice", "squash"],
+    "C20": ["dependency", "splice", "squash", "lookup"],
 }
 
 
